@@ -1305,6 +1305,16 @@ func (ctx *RenderContext) getAttribute(obj interface{}, attr string) (interface{
 		return nil, nil
 	}
 
+	// Interface-keyed maps (map[interface{}]interface{}, as YAML decoders
+	// produce them) hold the attribute under the string key of that name
+	if objValue.Kind() == reflect.Map && objValue.Type().Key().Kind() == reflect.Interface {
+		value := objValue.MapIndex(reflect.ValueOf(attr))
+		if value.IsValid() && value.CanInterface() {
+			return value.Interface(), nil
+		}
+		return nil, nil
+	}
+
 	// Only use caching for struct types
 	if objValue.Kind() != reflect.Struct {
 		// Instead of returning an error for non-struct types, return nil
